@@ -806,10 +806,15 @@ type trackedReader struct {
 
 func (t *trackedReader) Read(p []byte) (int, error) {
 	t.reads.Add(1)
-	time.Sleep(200 * time.Microsecond) // a slow source: the window in which the transport gives up
 	if t.returned.Load() {
-		t.late.Add(1)
+		t.late.Add(1) // started after the call returned
 	}
+	time.Sleep(time.Millisecond) // a slow source: the window in which the transport gives up
+	defer func() {
+		if t.returned.Load() {
+			t.late.Add(1) // still running when the call returned
+		}
+	}()
 	if t.left <= 0 {
 		return 0, io.EOF
 	}
@@ -828,12 +833,16 @@ func (t *trackedReader) Read(p []byte) (int, error) {
 }
 
 // abortTransport gives up after a few bytes of the body, closing it as every RoundTripper must.
-type abortTransport struct{}
+type abortTransport struct{ n *atomic.Int64 }
 
-func (abortTransport) Do(req *http.Request) (*http.Response, error) {
+func (a abortTransport) Do(req *http.Request) (*http.Response, error) {
 	if req.Body != nil {
-		buf := make([]byte, 4)
-		io.ReadFull(req.Body, buf)
+		if a.n.Add(1)%2 == 0 {
+			buf := make([]byte, 4)
+			io.ReadFull(req.Body, buf)
+		} else {
+			time.Sleep(300 * time.Microsecond) // gives up before reading anything, while the source is being read
+		}
 		req.Body.Close()
 	}
 	return nil, fmt.Errorf("verif: transport gave up mid-body")
@@ -844,7 +853,7 @@ func (abortTransport) Do(req *http.Request) (*http.Response, error) {
 // request is a struct with an io.Reader member is called with a slow counting reader through a transport that fails
 // after four bytes; reads observed after the return are reported.
 func c19Abandoned(r *ev.Run, pkg *Package, pc *C19Pkg, disp Dispatcher, ht reflect.Type, ops []OpInfo) {
-	cl, err := pkg.NewClient(disp, ClientConfig{URL: "http://verif.local", HTTP: abortTransport{}})
+	cl, err := pkg.NewClient(disp, ClientConfig{URL: "http://verif.local", HTTP: abortTransport{n: &atomic.Int64{}}})
 	if err != nil {
 		return
 	}
@@ -905,7 +914,7 @@ func c19Abandoned(r *ev.Run, pkg *Package, pc *C19Pkg, disp Dispatcher, ht refle
 				cm.Call(in)
 			}()
 			tr.returned.Store(true)
-			time.Sleep(3 * time.Millisecond)
+			time.Sleep(4 * time.Millisecond)
 			late += tr.late.Load()
 			calls++
 			r.Eval(1)
